@@ -303,3 +303,37 @@ Inductive reach (g : list rule) (K : nat -> kind) : nat -> nat -> Prop :=
 Inductive ireach (inhf : nat -> list nat) : nat -> nat -> Prop :=
 | ireach_refl x : ireach inhf x x
 | ireach_step x y z : In y (inhf x) -> ireach inhf y z -> ireach inhf x z.
+
+(* The documented lower bound: the rules that can be the first non-match reference of a match
+   of the expression (an element that can match without producing a non-match node lets the
+   following elements of a sequence through). *)
+Fixpoint skippable (K : nat -> kind) (e : expr) : bool :=
+  match e with
+  | Term => true
+  | Ref r => is_match (K r)
+  | Seq es => (fix go (l : list expr) : bool := match l with [] => true | x :: l' => skippable K x && go l' end) es
+  | Choice es => (fix go (l : list expr) : bool := match l with [] => false | x :: l' => skippable K x || go l' end) es
+  | Opt _ => true
+  | Plus e' => skippable K e'
+  end.
+
+Fixpoint firsts (K : nat -> kind) (e : expr) : list nat :=
+  match e with
+  | Term => []
+  | Ref r => if is_match (K r) then [] else [r]
+  | Seq es => (fix go (l : list expr) : list nat :=
+                 match l with [] => [] | x :: l' => firsts K x ++ (if skippable K x then go l' else []) end) es
+  | Choice es => (fix go (l : list expr) : list nat := match l with [] => [] | x :: l' => firsts K x ++ go l' end) es
+  | Opt e' | Plus e' => firsts K e'
+  end.
+
+Definition rule_firsts (g : list rule) (K : nat -> kind) (x : nat) : list nat :=
+  match r_body (rule_of g x) with
+  | Alias t => if is_match (K t) then [] else [t]
+  | Body e => firsts K e
+  end.
+
+(* objects of rule z can be the result of rule x *)
+Inductive yields (g : list rule) (K : nat -> kind) : nat -> nat -> Prop :=
+| yields_refl x : yields g K x x
+| yields_step x y z : K x = KAbstract -> In y (rule_firsts g K x) -> yields g K y z -> yields g K x z.
